@@ -1081,6 +1081,18 @@ pub fn encode_put_batch(start: u64, puts: &[(Vec<u8>, Vec<u8>)]) -> Vec<u8> {
     Vec::from(&b)
 }
 
+/// Encode a batch of the given operations (is_put, key, value) and decode the bytes again: (starting sequence, operations).
+pub fn batch_codec_roundtrip(start: u64, ops: &[(bool, Vec<u8>, Vec<u8>)]) -> Result<(Option<u64>, Vec<(bool, Vec<u8>, Option<Vec<u8>>)>), String> {
+    let mut b = crate::Batch::new();
+    for (is_put, k, v) in ops {
+        if *is_put { b.add_put(k.clone(), v.clone()); } else { b.add_delete(k.clone()); }
+    }
+    b.set_starting_seq_number(start);
+    let bytes: Vec<u8> = Vec::from(&b);
+    let d = crate::Batch::try_from(bytes.as_slice()).map_err(|e| e.to_string())?;
+    Ok((d.get_starting_seq_number(), d.iter().map(|x| (x.get_operation() == Operation::Put, x.get_key().to_vec(), x.get_value().cloned())).collect()))
+}
+
 /// Path of write-ahead log `n` of the database described by `options`.
 pub fn wal_path(options: &DbOptions, n: u64) -> std::path::PathBuf {
     crate::file_names::FileNameHandler::new(options.db_path().to_string()).get_wal_file_path(n)
